@@ -467,6 +467,11 @@ theorem table_channel_capacities :
     (Gotree.Gen.C11.chanCaps.any fun c => c.1 == "ReadMultiTrees" && c.2.2.1 == "tree.Trees") = true ∧
     (Gotree.Gen.C11.chanCaps.any fun c => c.1 == "TBE" && c.2.2.1 == "*tree.Edge") = true := by decide
 
+/-- table decision: every goroutine the model and the driver name (workers, closers, producers of the four pools) was
+    found in the source; a missing one is replaced by a leaky placeholder so that the driver still builds and the
+    cases still run (the oracle can then exhibit a failing input), and is listed here -/
+theorem table_no_missing_goroutine : Gotree.Gen.C11.missingGoroutines = [] := by decide
+
 /-- table decision: every write an exported method of `*hashmap.HashMap` makes through its receiver
     (PutValue, and rehash below it) happens with the write lock held -/
 theorem table_hashmap_writes_locked :
